@@ -1,11 +1,11 @@
 #!/bin/sh
 # tools/sweep.sh <tier> <seeds> <parallel> ids...   run checks at several seeds, P at a time; print non-clean results
 TIER=$1; SEEDS=$2; PAR=$3; shift 3
-mkdir -p /verif/.work/sweep
+V=${VERIF_DIR:-/verif}; export V; mkdir -p $V/.work/sweep
 for id in "$@"; do for s in $SEEDS; do echo "$id $s"; done; done | xargs -P "$PAR" -L 1 sh -c '
 id=$0; s=$1
-out=/verif/.work/sweep/$id.$s.log
-VERIF_SEED=$s timeout -s QUIT 7200 /verif/bin/vcheck $id '"$TIER"' >$out 2>&1
+out=$V/.work/sweep/$id.$s.log
+VERIF_SEED=$s timeout -s QUIT 7200 $V/bin/vcheck $id '"$TIER"' >$out 2>&1
 rc=$?
 echo "$id seed=$s rc=$rc $(grep -E "^SUMMARY" $out | cut -c1-160)"
 if [ $rc -ne 0 ]; then grep -E "^(VIOLATION|  what|  key|INCONCLUSIVE)" $out | cut -c1-300 | head -8; fi
